@@ -51,6 +51,23 @@ def run_tags(path, **opts):
 def tags_of_bytes(work, rel, data, **opts):
     return run_tags(work.write(rel, data), **opts)
 
+def entry_views(path):
+    """the entries of a file as lib/check/ can observe them (Model/Meta.lean `observe`), through the real loaders"""
+    H.ready()
+    import polib, collections
+    try:
+        f = polib.mofile(path) if path.endswith(('.mo', '.gmo')) else polib.pofile(path)
+        out = []
+        for e in f:
+            out.append((e.msgid, e.msgctxt, e.msgid_plural, e.msgstr or '', sorted(e.msgstr_plural.items()), sorted(collections.Counter(e.flags).items()),
+                        e.comment or '', [tuple(o) for o in e.occurrences], bool(e.obsolete),
+                        (e.previous_msgctxt is not None, e.previous_msgid is not None, e.previous_msgid_plural is not None), bool(e.translated())))
+        return out
+    except BaseException as exc:
+        if isinstance(exc, (KeyboardInterrupt, SystemExit)):
+            raise
+        return [('crash', f'{type(exc).__name__}: {exc}'[:200])]
+
 def show(tags):
     if tags[0] != 'ok':
         return [tags[0] + ': ' + str(tags[1])]
@@ -134,6 +151,42 @@ def extract_deb(work, deb, name):
     if p.returncode != 0:
         raise common.Infra('dpkg-deb -x failed: ' + p.stderr[-500:])
     return dest
+
+DSC_FILES = {
+    'debian/source/format': b'3.0 (native)\n',
+    'debian/control': b'Source: gizmo\nMaintainer: Jakub Wilk <jwilk@jwilk.net>\nStandards-Version: 4.6.0\n\nPackage: gizmo\nArchitecture: all\nDescription: gizmo\n',
+    'debian/changelog': b'gizmo (1.0) unstable; urgency=low\n\n  * x\n\n -- Jakub Wilk <jwilk@jwilk.net>  Thu, 01 Nov 2012 14:42:00 +0100\n',
+}
+
+def build_dsc(work, name, members, symlinks=(), dirs=()):
+    """members → <dir>/gizmo_1.0.dsc (+ tarball), built with the real dpkg-source; each package in its own directory"""
+    base = os.path.join(work.root, name + '.src')
+    tree = os.path.join(base, 'gizmo-1.0')
+    os.makedirs(tree)
+    for rel, data in list(DSC_FILES.items()) + list(members.items()):
+        p = os.path.join(tree, rel)
+        os.makedirs(os.path.dirname(p), exist_ok=True)
+        with open(p, 'wb') as f:
+            f.write(data)
+    for d in dirs:
+        os.makedirs(os.path.join(tree, d), exist_ok=True)
+    for rel, target in symlinks:
+        p = os.path.join(tree, rel)
+        os.makedirs(os.path.dirname(p), exist_ok=True)
+        os.symlink(target, p)
+    p = subprocess.run(['dpkg-source', '-b', 'gizmo-1.0'], cwd=base, capture_output=True, text=True)
+    if p.returncode != 0:
+        raise common.Infra('dpkg-source -b failed: ' + p.stderr[-500:])
+    shutil.rmtree(tree, ignore_errors=True)
+    return os.path.join(base, 'gizmo_1.0.dsc')
+
+def extract_dsc(work, dsc, name):
+    dest = os.path.join(work.root, name + '.x')
+    os.makedirs(dest)
+    p = subprocess.run(['dpkg-source', '--no-copy', '--no-check', '-x', dsc, os.path.join(dest, 's', '')], capture_output=True, text=True)
+    if p.returncode != 0:
+        raise common.Infra('dpkg-source -x failed: ' + p.stderr[-500:])
+    return os.path.join(dest, 's')
 
 def options(**kw):
     o = argparse.Namespace(ignore_tags=set(), fake_root=None, file_type=None, language=None, unpack_deb=False, jobs=1)
